@@ -3,8 +3,8 @@ CONSTANTS
   YearLo = 1999
   YearHi = 2001
   ExtraYears = {0, 1, 4, 99, 100, 400, 999, 1000, 1582, 1600, 1900, 1969, 1970, 1971, 2024, 2038, 2100, 9999}
-  FullYears = {1900, 2024}
+  FullYears = {}
   AllOffs = TRUE
-  EdgeTods = TRUE
+  EdgeTods = FALSE
   Seed = 1
 INVARIANTS RefValid CalendarOK EmitCase
